@@ -558,7 +558,8 @@ def stream_c23(ctx, drv, impl, root, n, deadline):
 
 def setup(ctx):
     ctx.rule = ("one generated C translation unit x 2-4 platforms (-D assignments of undefined/empty/0/1/other to 3-4 names). "
-                "Streams: exhaustive = every conditional-chain shape with <= N conditional directive lines (quick N=8: 385 shapes / 8164 assignments, thorough N=9: 1101 shapes / 35908 assignments), "
+                "Random units contain 'indirection drills' (an outer macro used before and after the macro it names is redefined); every fourth one is "
+                "also analysed as ONE platform built by several commands (union of the per-command reference runs). Streams: exhaustive = every conditional-chain shape with <= N conditional directive lines (quick N=8: 385 shapes / 8164 assignments, thorough N=9: 1101 shapes / 35908 assignments), "
                 "a marker code line in every gap, every truth assignment of the controlling macros; random = Block ASTs of depth <= 6 and "
                 "<= 40 lines (conditions: defined X, X, !X, X==k, X&&Y, arithmetic, #ifdef/#ifndef; #define/#undef on all paths; a few "
                 "malformed expressions); malformed = random units with conditional directives deleted/duplicated/moved/inserted "
